@@ -124,6 +124,8 @@ func (i *Inst) runFraming(f *FrScript, rng *rand.Rand, segmented bool) (stream [
 	defer t.Close()
 	p := i.P
 	start := p.Mark()
+	beA := i.Backends["A"]
+	hostConns0 := beA.NConns()
 	// consumed waits until the gateway's transport reads (hook tr.read) after
 	// `from` add up to want bytes, then until the loop is idle again (about to
 	// read: tr.reading) or gone (proc.exit). Waiting for tr.reading only from
@@ -270,6 +272,16 @@ func (i *Inst) runFraming(f *FrScript, rng *rand.Rand, segmented bool) (stream [
 		}
 	}
 	res.backend = fwd
+	// what counts is what the host got: the bytes that arrived on the connection this tunnel opened, up to its end
+	// (the packet loop is gone, so the gateway has closed that connection or is about to)
+	if beA.NConns() > hostConns0 {
+		bc := beA.Conn(hostConns0)
+		bc.WaitClosed(5 * time.Second)
+		if fwd > 0 {
+			bc.WaitRecv(fwd, time.Second)
+		}
+		res.backend = len(bc.Bytes())
+	}
 	for k := 0; k < nresp; k++ {
 		b, e := t.recvNonData(5 * time.Second)
 		if e != nil {
